@@ -1,7 +1,11 @@
-import LP.Props.C10
+import LP.Props.Elim
 #print axioms LP.Eval.ievalM_encloses
 #print axioms LP.Eval.refineAll_sound
 #print axioms LP.Eval.signLoop_sound
 #print axioms LP.Eval.C10_sign_sound
 #print axioms LP.Eval.C10_consistent
 #print axioms LP.QPoly.ievalC_encloses
+#print axioms LP.MPoly.resultant_vanishes
+#print axioms LP.MPoly.evalAt_decompose
+#print axioms LP.Eval.eliminant_root
+#print axioms LP.Eval.C10_sign_exact
